@@ -1,7 +1,7 @@
 """C03 - new -getset: accessors exist exactly as directed and round-trip."""
 import re
 
-from vlib import core, newgen, pkgrun
+from vlib import core, newgen, pkgrun, dirleg
 from vlib.sexp import Q, dump
 from props.c13 import leaf_types
 
@@ -190,6 +190,8 @@ def run(ctx, obl):
                 "exported/unexported/_/new:\"-\" fields, embedded shoot types generated in the same run (their accessor interfaces are inputs of the model); "
                 "observed: own accessor methods, TGetter/TSetter method sets, *T implements them, and for EVERY setter a call on a dirtied receiver "
                 "followed by reading all leaves and all own getters. non-trivial = has a setter and a directive or embed")
+    dirleg.run(ctx, res, ctx.n(30000, 300000))
+    dirleg.check_renderer(ctx, res, [d for c in cases for d in newgen.field_docs(c["spec"])])
     res.assumptions = ["own-method lists are read from the generated (gofmt-ed) source by regexp", "bool fields: written value and dirty marker are both `true`"]
     return res
 
